@@ -1,5 +1,7 @@
 package main
 
+import "time"
+
 // Harness vocabulary. These functions have no body: the symbolic executor (gose)
 // intercepts them by name. (For native replay a second file provides bodies.)
 
@@ -23,6 +25,7 @@ func vxStr(name string, max int, class int) string
 func vxInt(name string, lo, hi int) int
 func vxInt64(name string, lo, hi int64) int64
 func vxBool(name string) bool
+func vxTime(name string, lo, hi int64) time.Time
 func vxChoice(name string, n int) int
 func vxConcrete(v int) int
 func vxConcreteStr(s string) string
